@@ -358,6 +358,17 @@ class GeminiSpy:
 
     def __call__(self, y_pred, affinity, return_grad=False):
         self.env.gem_calls.append({"y_pred": np.array(y_pred, dtype=object, copy=True), "affinity": affinity, "return_grad": return_grad})
+        if self.env.gemini_stub:
+            # the objective's internals are irrelevant to the caller's question (batching / wiring): free symbolic values
+            c = len(self.env.gem_calls)
+            S = core.var(f"score{c}")
+            if not return_grad:
+                return S
+            yp = np.asarray(y_pred, dtype=object)
+            G = np.empty(yp.shape, dtype=object)
+            for idx in np.ndindex(*yp.shape):
+                G[idx] = core.var(f"G{c}_" + "_".join(map(str, idx)))
+            return S, G
         return self.inner(y_pred, affinity, return_grad)
 
     def evaluate(self, y_pred, affinity, return_grad=False):
@@ -372,8 +383,10 @@ class GeminiSpy:
 
 class FitEnv:
     def __init__(self, family, shape, gemini="mi", batch_size=None, solver="adam", max_iter=1, perm=None, mlcl=False, hyper=None,
-                 stop_after_training=True, affinity="computed", symbolic=True, assume_unclipped=True):
+                 stop_after_training=True, affinity="computed", symbolic=True, assume_unclipped=True, gemini_stub=False, final_infer="real"):
         self.assume_unclipped = assume_unclipped
+        self.gemini_stub = gemini_stub
+        self.final_infer = final_infer
         self.family, self.shape = family, tuple(shape)
         self.dm = dims(family, shape)
         self.n = self.dm["n"]
@@ -433,6 +446,13 @@ class FitEnv:
         def infer(X, retain=True):
             if env.stop_after_training and len(env.steps) >= env.expected_steps():
                 raise StopFit()
+            if env.final_infer == "concrete" and len(env.steps) >= env.expected_steps() and len(env.infer_calls) >= env.expected_steps():
+                # the forward pass after training (labels_): a concrete stand-in, so that its arg-max does not fork
+                m = len(X)
+                out = np.zeros((m, env.dm["K"]))
+                out[np.arange(m), np.arange(m) % env.dm["K"]] = 1.0
+                env.final_infer_calls = getattr(env, "final_infer_calls", 0) + 1
+                return out
             out = inner_infer(X, retain)
             env.infer_calls.append({"X": X, "y_pred": np.array(out, dtype=object, copy=True)})
             if env.assume_unclipped:
